@@ -32,6 +32,7 @@ class Check:
     labels: tuple = ()         # cover labels that must be witnessed somewhere (vacuity guard)
     timeout: float = 600.0     # per case, seconds
     split_depth: int | None = None  # decision depth at which a case is split over workers
+    path_timeout: float = 120.0  # wall-clock budget of one path (non-termination guard)
     validate_every: int = 1    # validate every k-th path on the real stack
     bounds: dict | None = None
     outside: tuple = ()
@@ -82,14 +83,37 @@ def _find_check(prop, name):
     raise KeyError(name)
 
 
+class _RealTimeout(BaseException):
+    pass
+
+
+REAL_TIMEOUT = 60
+
+
 def _real_obs(check, params, inputs):
     """run the real stack; returns (kind, payload): ok/obs, oracle/msg, raises/name"""
+    import signal
+
+    def h(sig, frm):
+        raise _RealTimeout()
+    try:
+        signal.signal(signal.SIGALRM, h)
+        signal.setitimer(signal.ITIMER_REAL, REAL_TIMEOUT)
+    except ValueError:
+        pass
     try:
         return "ok", _norm(check.real(params, inputs))
+    except _RealTimeout:
+        return "oracle", f"the operation did not terminate within {REAL_TIMEOUT}s on the real stack"
     except OracleFailure as ex:
         return "oracle", str(ex)[:500]
     except Exception as ex:  # noqa
         return "raises", f"{type(ex).__name__}: {str(ex)[:200]}"
+    finally:
+        try:
+            signal.setitimer(signal.ITIMER_REAL, 0)
+        except ValueError:
+            pass
 
 
 def run_job(job):
@@ -152,9 +176,11 @@ def run_job(job):
 
         if mode == "split":
             out["prefixes"] = symcore.explore(lambda: check.sym(params), split_depth=check.split_depth,
-                                              on_path=on_path, deadline=deadline)
+                                              on_path=on_path, deadline=deadline, path_timeout=check.path_timeout)
         else:
-            symcore.explore(lambda: check.sym(params), prefix=prefix, on_path=on_path, deadline=deadline)
+            symcore.explore(lambda: check.sym(params), prefix=prefix, on_path=on_path, deadline=deadline,
+                            path_timeout=check.path_timeout if mode != "selftest" else min(20, check.path_timeout),
+                            stop_on_violation=(mode == "selftest"))
         out["stats"] = dict(CTX.stats)
         out["labels"] = {k: 1 for k in CTX.covered}
         # confirm symbolic counterexamples on the real stack
@@ -168,6 +194,8 @@ def run_job(job):
             if kind == "oracle":
                 v["confirmed"] = True
             elif kind == "raises" and v["msg"].startswith("unexpected") and robs.split(":")[0] in v["msg"]:
+                v["confirmed"] = True
+            elif kind == "oracle" and "did not terminate" in robs:
                 v["confirmed"] = True
             else:
                 v["confirmed"] = False
